@@ -80,7 +80,7 @@ CANON_PREFIX = [
 ]
 # shape / dtype / container conversions that do not change element values
 TRANSPARENT = {
-    "np.array", "np.asarray", "np.float32", "np.float64", "np.int32", "float", "int", "np.squeeze",
+    "np.array", "np.asarray", "np.float64", "float", "np.squeeze",
     "np.ravel", "np.atleast_1d", "jax.device_put", "jax.device_get",
 }
 POINTWISE = {"where", "abs", "exp", "log", "clip", "minimum", "maximum", "not", "and", "or", "astype"}
@@ -842,7 +842,9 @@ class Interp:
                 if a[1] in ("inf", "+inf", "Infinity"):
                     return INF
                 return ("app", name, (a,))
-            return a  # numeric conversion is value-transparent for our purposes
+            if name == "int" and not (is_num(a) and a[1].denominator == 1):
+                return ("app", "int", (a,))  # truncation is not value-transparent
+            return a  # float() of a number is value-transparent
         if name in ("tuple", "list"):
             return args[0] if args else ("tuple", ())
         if name == "len":
